@@ -5,9 +5,32 @@ import json, os, subprocess, sys, glob
 V = os.path.dirname(os.path.dirname(os.path.abspath(__file__)))
 kf = {e["key"] for e in json.load(open(V + "/known_findings.json")) if e["status"] == "open"}
 wt = sys.argv[1]
+# BENIGN_CLUSTER=1: run, for a probe of group Cxx_Cyy, the checks of every property that shares code with one of them
+# (all 28 otherwise).  The clusters follow the anchors: queues; coroutine / scheduler / pool / monitor; syscall / net.
+CLUSTERS = [
+    ["C01", "C03", "C04", "C05", "C06"],
+    ["C01", "C02", "C07", "C08", "C09", "C10", "C11", "C12", "C13", "C15", "C22", "C23", "C24", "C25", "C26"],
+    ["C14", "C15", "C16", "C17", "C18", "C19", "C20", "C21", "C27", "C28"],
+]
+
+
+def cluster(patch):
+    import re
+    if not os.environ.get("BENIGN_CLUSTER"):
+        return []
+    own = set(re.findall(r"C\d\d", os.path.basename(os.path.dirname(patch)))) or set()
+    if not own:
+        return []
+    out = set(own)
+    for c in CLUSTERS:
+        if own & set(c):
+            out |= set(c)
+    return sorted(out)
+
+
 for d in sys.argv[2:]:
     for patch in ([d] if d.endswith(".diff") else sorted(glob.glob(os.path.join(d, "r*.diff")))):
-        r = subprocess.run(["python3", V + "/tools/wt_patch.py", wt, patch], capture_output=True, text=True)
+        r = subprocess.run(["python3", V + "/tools/wt_patch.py", wt, patch] + cluster(patch), capture_output=True, text=True)
         try:
             out = json.loads(r.stdout)
         except Exception:
